@@ -54,11 +54,13 @@ OTHER_SIGS = {
     "createAddress(string)": {"kind": "fresh", "typ": "address", "n": -1},
     "createBool(string)": {"kind": "fresh", "typ": "bool", "n": -1},
     "createBytes4(string)": {"kind": "fresh", "typ": "bytes4", "n": -1},
+    "createUint256(string,uint256,uint256)": {"kind": "freshRange", "typ": "uint256", "n": 1},
     "createBytes(uint256,string)": {"kind": "fresh", "typ": "bytes", "n": 0},
     "createString(uint256,string)": {"kind": "fresh", "typ": "string", "n": 0},
     # Vm.random*
     "randomUint()": {"kind": "fresh", "typ": "uint256", "n": -1},
     "randomUint(uint256)": {"kind": "fresh", "typ": "uint", "n": 0},
+    "randomUint(uint256,uint256)": {"kind": "freshRange", "typ": "uint256", "n": 0},
     "randomInt()": {"kind": "fresh", "typ": "int256", "n": -1},
     "randomInt(uint256)": {"kind": "fresh", "typ": "int", "n": 0},
     "randomAddress()": {"kind": "fresh", "typ": "address", "n": -1},
